@@ -133,16 +133,19 @@ def epochs_family(ld, r, count):
                 return v
             seed = r.randint(0, 10 ** 6)
             base = ld.new({f'key{i}': i for i in range(n)} if keyed else list(range(n)))
-            shape = r.choice(['map_reshuffle', 'reshuffle_map', 'lazyapply', 'reshuffle_map_prefetch1'])
+            shape = r.choice(['map_reshuffle', 'reshuffle_map', 'lazyapply', 'reshuffle_map_prefetch1', 'lazyapply_reshuffle', 'lazyapply_part_reshuffle', 'lazyapply_reshuffle_map'])
             sel = r.choice([exc, (exc, ValueError), Exception])
             try:
                 if shape == 'map_reshuffle': d = base.map(fn).shuffle(True, rng=np.random.RandomState(seed)).catch(sel)
                 elif shape == 'reshuffle_map': d = base.shuffle(True, rng=np.random.RandomState(seed)).map(fn).catch(sel)
                 elif shape == 'lazyapply': d = base.map(fn).apply(_Reorder(seed), lazy=True).catch(sel)
+                elif shape == 'lazyapply_reshuffle': d = base.map(fn).apply(_Reshuffle(seed), lazy=True).catch(sel)
+                elif shape == 'lazyapply_part_reshuffle': d = base.map(fn).apply(_PartReshuffle(seed), lazy=True).catch(sel)
+                elif shape == 'lazyapply_reshuffle_map': d = base.apply(_Reshuffle(seed), lazy=True).map(fn).catch(sel)
                 else: d = base.shuffle(True, rng=np.random.RandomState(seed)).map(fn).prefetch(1, 2, catch_filter_exception=sel if sel is not Exception else (exc,))
                 want = sorted(set(range(n)) - badset)
                 for epoch in range(4):
-                    use_items = keyed and epoch % 2 == 1 and shape != 'lazyapply'
+                    use_items = keyed and epoch % 2 == 1 and not shape.startswith('lazyapply')
                     got = [kv[1] for kv in d.items()] if use_items else list(d)
                     if sorted(got) != want:
                         fails.append(dict(kind='history', summary=f'{shape} over {n} examples ({"dict" if keyed else "list"} source), examples {sorted(badset)} raise {exc.__name__}, caught {sel}: '
@@ -168,6 +171,22 @@ def epochs_family(ld, r, count):
             except Exception as e:
                 fails.append(dict(kind='history', summary=f'{shape} (n={n}, failing {sorted(badset)}, {exc.__name__} caught by {sel}) raised {type(e).__name__}: {e}'[:400], config=dict(n=n, shape=shape, seed=seed)))
     return fails
+
+
+class _Reshuffle:
+    """apply function whose result reshuffles per iteration itself (the documented use of a lazy apply)"""
+    def __init__(self, seed):
+        import numpy as np
+        self.rng = np.random.RandomState(seed)
+
+    def __call__(self, ds):
+        return ds.shuffle(True, rng=self.rng)
+
+
+class _PartReshuffle(_Reshuffle):
+    def __call__(self, ds):
+        import lazy_dataset
+        return lazy_dataset.concatenate(ds[:2], ds[2:].shuffle(True, rng=self.rng)) if len(ds) > 2 else ds
 
 
 class _Reorder:
